@@ -30,7 +30,7 @@ REQUIRED = ["contract:CVR.make_phantoms", "accounting_checked:style", "accountin
             "pool_means_with_phantoms_checked", "pool_means_with_phantoms_checked:assorter_bound_not_1",
             "audit_wide_max_cards_differs_from_stratum_bound", "phantom_mvrs_for_sampled_phantom_cards_checked",
             "phantom_mvrs_for_sampled_phantom_cards_checked:another_prefix", "contest_with_card_bound_zero", "call_on_a_list_that_already_holds_phantoms:no_style",
-            "phantom_manual_record_built_by_from_raire", "phantom_mvrs_for_manifest_lookups_checked", "phantom_mvrs_for_manifest_lookups_checked:hart", "contests_dict_keyed_by_something_other_than_the_identifier", "worstcase_data_route_checked", "phantom_mvrs_for_sampled_phantom_cards_checked:hart_two_phantom_batches", "assorter:plurality", "assorter:supermajority", "assorter:irv"]
+            "phantom_manual_record_built_by_from_raire", "phantom_mvrs_for_manifest_lookups_checked", "phantom_mvrs_for_manifest_lookups_checked:hart", "contests_dict_keyed_by_something_other_than_the_identifier", "worstcase_data_route_checked", "manifests_listing_more_cards_than_there_are_cvrs", "phantom_mvrs_for_sampled_phantom_cards_checked:hart_two_phantom_batches", "assorter:plurality", "assorter:supermajority", "assorter:irv"]
 ASSUMPTIONS = ["card bounds >= number of records listing the contest; with style the input list holds no phantoms (the "
                "function is documented for 'the reported CVRs'); without style it may",
                "a phantom labelled pooled inside a pooled batch is scored with that batch's mean by design (C03 depends "
@@ -296,8 +296,17 @@ def run_case(es, rec):
     # that falls into the phantom batch, and no other, gets a phantom manual record - in whatever order the numbers come
     total = int(man["Total Ballots"].sum())
     extra = 1 + len(es["cards"]) % 4
-    ok, pm = rec.guard("c08.call:Dominion.prep_manifest", Dominion.prep_manifest, man.copy(), total + extra, total)
+    # (the manifest may list cards for which there is no CVR: the phantom batch makes up manifest -> bound, not CVRs -> bound)
+    n_cvrs_m = max(0, total - len(es["cards"]) % 3)
+    if n_cvrs_m < total:
+        rec.count("manifests_listing_more_cards_than_there_are_cvrs")
+    ok, pm = rec.guard("c08.call:Dominion.prep_manifest", Dominion.prep_manifest, man.copy(), total + extra, n_cvrs_m)
     if not ok:
+        return
+    if int(pm[2]) != extra or int(pm[0]["cum_cards"].iloc[-1]) != total + extra:
+        rec.violation("c08.accounting", "manifest_plus_phantom_batch_does_not_add_up_to_the_card_bound",
+                      {"manifest_cards": total, "bound": total + extra, "n_cvrs": n_cvrs_m, "phantoms": int(pm[2]),
+                       "last_cumulative_count": int(pm[0]["cum_cards"].iloc[-1])})
         return
     nums = list(range(1, total + extra + 1))
     prng2 = __import__("random").Random(total * 31 + extra)
@@ -319,7 +328,7 @@ def run_case(es, rec):
     from shangrla.formats.Hart import Hart
     hman = pd.DataFrame({"Container": [f"box {j}" for j in range(len(keys))], "Tabulator": [str(k[0]) for k in keys],
                          "Batch Name": [str(k[1]) for k in keys], "Number of Ballots": list(man["Total Ballots"])})
-    ok, hp = rec.guard("c08.call:Hart.prep_manifest", Hart.prep_manifest, hman, total + extra, total)
+    ok, hp = rec.guard("c08.call:Hart.prep_manifest", Hart.prep_manifest, hman, total + extra, n_cvrs_m)
     if not ok:
         return
     hnums = [n - 1 for n in nums]
